@@ -203,10 +203,10 @@ Lab(x, n) ==
 
 Root == IF Mode = "expr" THEN H("e", MaxDepth) ELSE H("f", MaxDepth)
 
-\* a small linear congruential mix (all intermediate values below 2^31)
-Rand(kk, nn) == LET x == ((kk % 30011) * 1103 + nn * 12347 + (Seed % 30011) * 7 + 11) % 32749
-                    y == (x * 3001 + 4099) % 32749
-                IN (y * 211 + 17) % 32749
+\* a small pseudo-random mix of derivation number and step (all intermediate values < 2^31)
+Rand(kk, nn) == LET x == ((kk % 32749) * 7919 + (Seed % 30011)) % 32749
+                    y == (x * x + nn * 12347 + 101) % 32749
+                IN (y * y + x) % 32749
 
 Init == /\ t = Root /\ b = Budget /\ stp = 0
         /\ tid \in (IF Traces = 0 THEN {0} ELSE 1..Traces)
